@@ -65,6 +65,20 @@ def run_interleaving(case):
                 dags[f].setup()
         return dags[f]
 
+    _ri = {}
+
+    def refused_inner():
+        if "d" not in _ri:
+            fl = plain_xn("rf_flagged", 7)
+
+            def rdesc(x):
+                return fl(x, twz_active=x)
+            rdesc.__qualname__ = "rf_inner"
+            rdesc.__name__ = "rf_inner"
+            _ri["d"] = tawazi.dag(rdesc)
+        return _ri["d"]
+    if case.get("refused_first"):
+        refused_inner()
     # finished DAGs are built beforehand (sequentially)
     for acts in case["threads"].values():
         for a in acts:
@@ -131,6 +145,14 @@ def run_interleaving(case):
                             if early is not None:
                                 wait_turn(t)  # the build was ATTEMPTED earlier (it blocked on the lock); ABegin happens now
                             done_turn()  # the ABegin action itself (lock acquired, we are inside)
+                            if case.get("refused_first"):
+                                # the describing function first tries a nested-DAG call that tawazi REFUSES (a flag on a nested
+                                # DAG whose node carries a flag of its own: RuntimeError), catches the error and goes on: the
+                                # refused call records nothing (not an action of the model)
+                                try:
+                                    refused_inner()(5, twz_active=True)
+                                except RuntimeError:
+                                    pass
                             for b in inner_acts:
                                 wait_turn(t)
                                 obs[t].append(do_call(t, b[1], True))
@@ -149,6 +171,9 @@ def run_interleaving(case):
                         wait_turn(t)
                     d = tawazi.dag(describer)
                     ids = [k for k in d.exec_nodes.keys() if ">!>" not in k]
+                    if case.get("refused_first"):
+                        # (a refused nested call leaves its prefix behind for the rest of THIS description, alone or not)
+                        ids = [k[len("rf_inner."):] if k.startswith("rf_inner.") else k for k in ids]
                     obs[t].append(("built", ids))
                     done_turn()
                     i = j + 1
@@ -325,6 +350,10 @@ def run_threads(pid, tier, seed, res, only=None):
     rng = random.Random(seed * 86028121 + 17)
     n = 60 if tier == "quick" else 600
     cases = [dict(threads={"1": [["begin"], ["desc", 1], ["desc", 2], ["end"]], "2": [["call", 100]]}, sched=["1", "1", "2", "1", "1"]),
+             # the describing function of thread 1 first attempts a refused nested call (and catches the error); thread 2 calls
+             # shared DAGs while that build is still going on
+             dict(threads={"1": [["begin"], ["desc", 1], ["desc", 2], ["end"]], "2": [["call", 100], ["call", 102]]}, sched=["1", "1", "2", "1", "2", "1"], refused_first=True),
+             dict(threads={"1": [["begin"], ["desc", 100], ["end"]], "2": [["call", 101]], "3": [["call", 2]]}, sched=["1", "2", "1", "3", "1"], refused_first=True),
              # a finished DAG is reconfigured by one thread while another thread is in the middle of a build
              dict(threads={"1": [["begin"], ["desc", 1], ["desc", 2], ["end"]], "2": [["call", 200], ["call", 100]]}, sched=["1", "1", "2", "1", "2", "1"]),
              dict(threads={"1": [["begin"], ["desc", 100], ["desc", 2], ["end"]], "2": [["call", 202]], "3": [["call", 200]]}, sched=["1", "2", "1", "3", "1", "1"]),
